@@ -11,7 +11,7 @@ FUNCTIONS = [
     "batchie.models.sparse_combo.predict (consequence clause)",
 ]
 BOUNDS = {
-    "quick": "prepared screens of 5 rows (and 7 rows with one operation, and the random hold-out) (1 observed plate, 2 unobserved plates of 2 rows, all conditions and 3 of 5 samples distinct), every hold-out choice the generator can make (fraction 1/2), every history of <=2 operations from {reveal(plate), mask, unmask, save+load, reveal via CLI}",
+    "quick": "prepared screens of 5 rows (and 7 rows with one operation, and the random hold-out) (1 observed plate, 2 unobserved plates of 2 rows, all conditions and 3 of 5 samples distinct), every hold-out choice the generator can make (fraction 1/2), every history of <=2 operations from {reveal(plate), mask, unmask, save+load, reveal via CLI}; one configuration whose labels differ only by surrounding white space",
     "thorough": "5 rows with histories of <=4 operations; 7 rows / 3 unobserved plates with histories of <=3 operations, fractions 1/2, 1/3 and 2/3, random hold-out with 2 operations; generated screen structures of up to 8 rows with histories of 2 (8 of them: 3) operations",
 }
 ASSUMPTIONS = [
